@@ -321,6 +321,8 @@ func (a *Real32) SetVariable(i, n, order int) error {
     return fmt.Errorf("order `%d' not supported by this type", order)
   }
   a.Alloc(n, order)
+  // the scalar may carry derivatives from an earlier computation
+  a.ResetDerivatives()
   if order > 0 {
     a.Derivative[i] = 1
   }
